@@ -28,6 +28,17 @@
 (* when MaxBatchSize = 0 and otherwise stops once MaxBatchSize entries     *)
 (* were collected (processSyncLoop's result budget): an ordered top-N.     *)
 (* Ties between equal keys may come in any order; the model picks one.     *)
+(*                                                                         *)
+(* The last section models the scan the way query.go executes it: blocks   *)
+(* (per part and series, BlockCap entries), visited by minKey (ASC) or by  *)
+(* maxKey (DESC), loaded in scan batches, the heap drained between scan    *)
+(* batches up to the bound of the next unscanned block.  ScanEmitsInOrder  *)
+(* says that this produces THE ordered answer; with Bounded = FALSE (every *)
+(* scan batch drained completely) TLC finds an out-of-order answer, which  *)
+(* the check also executes on the real index.  Blocks of one series in one *)
+(* part are taken to be disjoint here; a merge that cuts a block at the    *)
+(* byte-size limit makes them overlap, which only the block-limit tier of  *)
+(* the replay exercises.                                                   *)
 (***************************************************************************)
 EXTENDS Integers, Sequences, FiniteSets, TLC, SequencesExt    \* SequencesExt: SetToSortSeq, FlattenSeq (Java)
 
@@ -220,49 +231,48 @@ QueryDesign ==
 \* round(e) is the scan batch after which entry e is emitted; the answer is the entries by (round, key).
 SeriesRun(p, s) == SetToSortSeq({ e \in p.ents : e.s = s }, LAMBDA a, b : LessIn(a, b, TRUE))
 BlocksOf(p, s) == LET c == Cut(SeriesRun(p, s), BlockCap)
-                  IN { [part |-> p.id, s |-> s, n |-> j, ents |-> Elems(c[j])] : j \in DOMAIN c }
+                  IN { [part |-> p.id, s |-> s, n |-> j, ents |-> Elems(c[j]), lo |-> c[j][1].k, hi |-> c[j][Len(c[j])].k] :
+                       j \in DOMAIN c }
 AllBlocks == UNION { BlocksOf(p, s) : p \in parts, s \in Series }
-MinK(b) == Min({ e.k : e \in b.ents })
-MaxK(b) == Max({ e.k : e \in b.ents })
-Selected(q) == { b \in AllBlocks : b.s \in q.series /\ MaxK(b) >= q.lo /\ MinK(b) <= q.hi }
 Tie(a, b) == \/ a.s < b.s
              \/ a.s = b.s /\ a.part < b.part
              \/ a.s = b.s /\ a.part = b.part /\ a.n < b.n
-ScanOrder(q) ==
-  SetToSortSeq(Selected(q), LAMBDA a, b :
-     IF q.asc THEN \/ MinK(a) < MinK(b)
-                   \/ MinK(a) = MinK(b) /\ MaxK(a) < MaxK(b)
-                   \/ MinK(a) = MinK(b) /\ MaxK(a) = MaxK(b) /\ Tie(a, b)
-              ELSE \/ MaxK(a) > MaxK(b)
-                   \/ MaxK(a) = MaxK(b) /\ MinK(a) > MinK(b)
-                   \/ MaxK(a) = MaxK(b) /\ MinK(a) = MinK(b) /\ Tie(b, a))
+\* blocks: all blocks of the index
+ScanOrder(blocks, q) ==
+  SetToSortSeq({ b \in blocks : b.s \in q.series /\ b.hi >= q.lo /\ b.lo <= q.hi }, LAMBDA a, b :
+     IF q.asc THEN \/ a.lo < b.lo
+                   \/ a.lo = b.lo /\ a.hi < b.hi
+                   \/ a.lo = b.lo /\ a.hi = b.hi /\ Tie(a, b)
+              ELSE \/ a.hi > b.hi
+                   \/ a.hi = b.hi /\ a.lo > b.lo
+                   \/ a.hi = b.hi /\ a.lo = b.lo /\ Tie(b, a))
 
-Emitted(q, mb) ==       \* [e |-> round] for the matching entries
-  LET bl == ScanOrder(q)
+Emitted(blocks, q, mb) ==       \* [e |-> round] for the matching entries
+  LET bl == ScanOrder(blocks, q)
       thr == IF mb > 0 THEN mb ELSE ScanBatch
       nb == (Len(bl) + thr - 1) \div thr
-      bound(j) == IF q.asc THEN MinK(bl[j * thr + 1]) ELSE MaxK(bl[j * thr + 1])      \* j < nb
-      free(k, j) == j = nb \/ (IF q.asc THEN k <= bound(j) ELSE k >= bound(j))
+      bound == [j \in 1..(nb - 1) |-> IF q.asc THEN bl[j * thr + 1].lo ELSE bl[j * thr + 1].hi]
+      free(k, j) == j = nb \/ (IF q.asc THEN k <= bound[j] ELSE k >= bound[j])
       loaded(e) == ((CHOOSE i \in DOMAIN bl : e \in bl[i].ents) - 1) \div thr + 1
   IN [e \in Matching(q) |-> IF Bounded THEN Min({ j \in loaded(e)..nb : free(e.k, j) }) ELSE loaded(e)]
 
-EmitSeq(q, mb) ==
-  LET r == Emitted(q, mb)
-  IN SetToSortSeq(DOMAIN r, LAMBDA a, b : \/ r[a] < r[b]
-                                          \/ r[a] = r[b] /\ (IF q.asc THEN a.k < b.k ELSE a.k > b.k)
-                                          \/ r[a] = r[b] /\ a.k = b.k /\ a.t < b.t)
+EmitSeq(r, q) ==
+  SetToSortSeq(DOMAIN r, LAMBDA a, b : \/ r[a] < r[b]
+                                       \/ r[a] = r[b] /\ (IF q.asc THEN a.k < b.k ELSE a.k > b.k)
+                                       \/ r[a] = r[b] /\ a.k = b.k /\ a.t < b.t)
 \* processSyncLoop stops scanning after the round in which MaxBatchSize entries have been collected
-SyncEmit(q, mb) ==
-  LET r == Emitted(q, mb)
-      sq == EmitSeq(q, mb)
-      enough == { j \in { r[e] : e \in DOMAIN r } : Cardinality({ e \in DOMAIN r : r[e] <= j }) >= mb }
+SyncEmit(r, sq, mb) ==
+  LET enough == { j \in { r[e] : e \in DOMAIN r } : Cardinality({ e \in DOMAIN r : r[e] <= j }) >= mb }
   IN IF mb = 0 \/ enough = {} THEN sq ELSE SelectSeq(sq, LAMBDA e : r[e] <= Min(enough))
 
 \* C09 (sidx) for the scan as implemented: what is emitted batch after batch is THE ordered answer
 ScanEmitsInOrder ==
-  \A q \in VQ : \A mb \in BatchSizes :
-     /\ IsAnswer(EmitSeq(q, mb), q)
-     /\ IF mb = 0 THEN IsAnswer(SyncEmit(q, mb), q) ELSE IsTopN(SyncEmit(q, mb), q, mb)
+  LET blocks == AllBlocks
+  IN \A q \in VQ : \A mb \in BatchSizes :
+       LET r == Emitted(blocks, q, mb)
+           sq == EmitSeq(r, q)
+       IN /\ IsAnswer(sq, q)
+          /\ IF mb = 0 THEN IsAnswer(SyncEmit(r, sq, mb), q) ELSE IsTopN(SyncEmit(r, sq, mb), q, mb)
 
 \* C03 (sidx): maintenance is invisible
 FlushInvisible == [][last'.op = "flush" => Contents' = Contents]_vars
